@@ -30,6 +30,9 @@ def cases(tier: str):
     for body, ret in noncommutative_programs():
         yield dict(name="main", params=[["x", "<nodefault>"]], body=body, ret=ret, subs=[], env=[], configs=["mc1", "mc3"], flavours=[False, True],
                    explore=False, nested=True)
+    for body, ret in exotic_key_programs():
+        yield dict(name="main", params=[["x", "<nodefault>"]], body=body, ret=ret, subs=[], env=[], configs=["mc1", "mc3"], flavours=[False, True],
+                   explore=False, nested=True)
     for body, ret in twin_constant_programs():
         yield dict(name="main", params=[["x", "<nodefault>"]], body=body, ret=ret, subs=[], env=[], configs=["mc1", "mc3"], flavours=[False, True],
                    explore=False, nested=True)
@@ -102,6 +105,22 @@ def twin_constant_programs():
             yield [_call("ident", [["c", c2]], "a", flag=["c", c1]), _call("ident", [["c", c1]], "b", flag=["c", c2])], ["tuple", [v("a"), v("b")]]
             yield [_call("inc", [X], "a"), {"k": "op", "op": "+", "a": v("a"), "b": ["c", c1], "out": "b"},
                    {"k": "op", "op": "*", "a": ["c", c2], "b": v("a"), "out": "c"}], ["dict", {"b": v("b"), "c": v("c"), "k": ["c", c2]}]
+
+
+def exotic_key_programs():
+    """int keys, negative list positions, an int key that is negative: r[1], r["k"][-1], r["k"][-2], r[-1] - as arguments, keyword
+    arguments, flags and members of the return value"""
+    X = ["p", "x"]
+
+    def v(n, *path):
+        return ["v", n, list(path)]
+
+    yield [_call("mkx", [X], "m"), _call("add", [v("m", 1), v("m", "k", -1)], "a"), _call("ident", [v("m", -1)], "b")], \
+        ["tuple", [v("a"), v("b"), v("m", "k", -2), v("m", 1)]]
+    yield [_call("mkx", [X], "m"), _call("add", [v("m", "k", 0)], "a", kwargs={"y": v("m", "k", -1)}), _call("ident", [v("m", 1)], "b", flag=v("m", "k", -3))], \
+        ["dict", {"a": v("a"), "b": v("b"), "last": v("m", "k", -1)}]
+    yield [_call("pair", [X], "t"), _call("add", [v("t", -1), v("t", -2)], "a"), {"k": "op", "op": "-", "a": v("t", -1), "b": v("t", 0), "out": "d"}], \
+        ["list", [v("a"), v("d"), v("t", -1)]]
 
 
 def noncommutative_programs():
